@@ -42,7 +42,7 @@ ALGS = ['A', 'A1', 'AB']
 SVS = ['s', 's1']
 VALS = ['v', 'v1']
 VERS = ['1.0.0', '1.0.0', '1.0.0', '1.1.0']
-MAXRUN = 9
+MAXRUN = 12
 
 _entry = st.tuples(
     st.integers(0, MAXRUN),
@@ -324,6 +324,88 @@ def exec_find(case):
     return out
 
 
+def exec_api(case):
+    '''the front-end route: dawgie.fe.api.database.search with URL-style
+    arguments, asked before and after more matching entries arrive under run
+    IDs that are not new'''
+    import json
+
+    import dawgie.db
+    import dawgie.fe.api.database as api
+
+    out = core.Outcome()
+    store = rig.ShelveRig()
+    try:
+        model = _populate(case['entries'])
+        for phase in (0, 1):
+            if phase == 1:
+                top = max(m[0] for m in model)
+                more = [[min(e[0], top)] + e[1:] for e in case['more']]
+                model = sorted(set(model) | set(_populate(more)))
+                out.label('entries-added-between-identical-requests')
+            for req in case['requests']:
+                expr = req['runids']
+                runarg = None
+                if expr is not None:
+                    runarg = render_expr(dict(expr, form='str'))
+
+                def ok(m, req=req, expr=expr):
+                    if expr is not None and not denotes(expr['elems'], m[0]):
+                        return False
+                    for col, key in ((1, 'targets'), (2, 'tasks'),
+                                     (3, 'algs'), (5, 'svs')):
+                        if req[key] and m[col] not in req[key]:
+                            return False
+                    return True
+
+                match = [m for m in model if ok(m)]
+                svkeys = sorted({m[:7] for m in match})
+                want = ['.'.join([str(k[0]), k[1], k[2], k[3], k[5]])
+                        for k in svkeys]
+                args = {k: [','.join(req[k])] if req[k] else None
+                        for k in ('targets', 'tasks', 'algs', 'svs')}
+                i, lim = req['index'], req['limit']
+                raw = api.search(
+                    runids=[runarg] if runarg else None,
+                    index=[str(i)], limit=[str(lim)] if lim else None, **args)
+                ans = json.loads(raw)
+                if ans.get('status') != 'success':
+                    out.fail('api/search-failed', f'{req}: {ans}')
+                    continue
+                got = ans['content']
+                full = sorted(want, key=lambda w: int(w.split('.')[0]))
+                runs_full = [int(w.split('.')[0]) for w in full]
+                page = got['items']
+                runs = [int(w.split('.')[0]) for w in page]
+                n = len(full)
+                if got['total'] != n:
+                    out.fail('api/total-wrong',
+                             f'phase {phase} {req}: total {got["total"]} '
+                             f'want {n}')
+                exp_runs = runs_full[i:] if lim is None else runs_full[i:i + lim]
+                if runs != exp_runs or not set(page) <= set(full):
+                    out.fail(
+                        'api/page-differs',
+                        f'phase {phase} runids={runarg!r} '
+                        f'{ {k: v for k, v in args.items() if v} } index={i} '
+                        f'limit={lim}: run IDs {runs[:8]} want {exp_runs[:8]}',
+                    )
+                if phase == 1 and match:
+                    out.nontrivial = True
+            if out.failures:
+                break
+    finally:
+        store.close()
+    return out
+
+
+_api_case = st.fixed_dictionaries({
+    'entries': st.lists(_entry, min_size=1, max_size=30),
+    'more': st.lists(_entry, min_size=1, max_size=10),
+    'requests': st.lists(_request, min_size=1, max_size=4),
+})
+
+
 def parts(tier):
     q = tier == 'quick'
     return [
@@ -331,4 +413,6 @@ def parts(tier):
                   cases=4000 if q else 200000, batch=500),
         core.Part('find', exec_find, strategy=_case,
                   cases=800 if q else 24000, batch=100),
+        core.Part('api', exec_api, strategy=_api_case,
+                  cases=400 if q else 12000, batch=100),
     ]
